@@ -6,10 +6,61 @@ import re
 
 def _c10_fire(out):
     # "ops ... | fire 0,2" -> "fire 0,2";  rejections and crashes stay as they are
+    # layout-level (KAN) lines: the trace is judged by _c10_layout_oracle, which answers ok | fail
+    if out.startswith(('@', 'I idle', '- I ')):
+        return 'ok'
     return out.split(' | ')[1] if ' | ' in out else out
 
 
+def _c10_layout_oracle(case, impl):
+    """layout-level fork/switch clause on the implementation's trace alone: in the C10 layout family
+    key b is (fork 1 2 (lsft rsft)) and key c a switch on (or lsft rsft) with outputs 3 | 4; the keys
+    kanata reports down at the OS are the layout's active keys, so whenever 1|2|3|4 is pressed, the
+    choice must agree with whether lsft/rsft is down at that moment (ticks at which lsft/rsft itself
+    changes are skipped: the order inside one tick is not determined by the statement)"""
+    if not case.startswith('KAN '):
+        return None
+    if impl.startswith(('rej', 'unsupported', 'harness-error')):
+        return None
+    if impl.startswith('crash'):
+        return 'ok'   # the projection of a crash is the crash text: reported as a failure
+    down = set()
+    toks = impl.split(' ')
+    i = 0
+    while i < len(toks):
+        t = toks[i]
+        if t in ('I', 'D'):
+            break
+        if t.startswith('@'):
+            j = i + 1
+            evs = []
+            while j < len(toks) and not toks[j].startswith('@') and toks[j] not in ('I', 'D'):
+                evs.append(toks[j])
+                j += 1
+            touched = any(re.fullmatch(r'[du](42|54)', e) for e in evs)
+            if not touched:
+                active = ('42' in down) or ('54' in down)
+                for e in evs:
+                    if e in ('d2', 'd3', 'd4', 'd5'):
+                        right = e in ('d3', 'd4')
+                        what = 'fork' if e in ('d2', 'd3') else 'switch'
+                        if right != active:
+                            return (f'fail {what} at {t[1:]} took the branch for trigger '
+                                    f'{"active" if right else "inactive"} while lsft/rsft is '
+                                    f'{"down" if active else "up"} at the OS')
+            for e in evs:
+                m = re.fullmatch(r'([du])(\d+)', e)
+                if m:
+                    (down.add if m.group(1) == 'd' else down.discard)(m.group(2))
+            i = j
+            continue
+        i += 1
+    return 'ok'
+
+
 def _c10_nontrivial(case, impl):
+    if case.startswith('KAN '):
+        return impl.count('@') >= 2
     return bool(re.search(r'\b(or|and|not) \d', case)) or bool(re.search(r'\bt[lg] \d+ (2[5-9]\d|[3-9]\d\d|\d{4,})', case))
 
 
@@ -17,6 +68,13 @@ def _c10_stats(cases, impl):
     import collections
     d = collections.Counter()
     for c, i in zip(cases, impl):
+        if c.startswith('KAN '):
+            d['layout_level_cases'] += 1
+            if re.search(r' d[35]\b', i):
+                d['layout_level_trigger_active_branch'] += 1
+            if re.search(r' d[24]\b', i):
+                d['layout_level_trigger_inactive_branch'] += 1
+            continue
         d['rejected_by_parser' if i.startswith('rej') else ('crash' if i.startswith('crash') else 'evaluated')] += 1
         ops = len(re.findall(r'\b(?:or|and|not) \d', c))
         d['operators_0' if ops == 0 else 'operators_1_3' if ops <= 3 else 'operators_4_plus'] += 1
@@ -253,6 +311,8 @@ PROPS = {
     'C10': {
         'lean_modules': ['KVerif.Props.C10'],
         'oracle_project': _c10_fire,
+        'expand': True,
+        'free_oracle': _c10_layout_oracle,
         'nontrivial': _c10_nontrivial,
         'rule': 'exhaustive key-match lists up to a node bound over key leaves x all truth assignments, random lists over all leaf kinds (depth up to 8 and beyond, empty operators, 1-9 cases with break/fallthrough), and key-timing thresholds around every compression boundary; non-trivial = contains an operator or a threshold in a lossy range; distinct = distinct case line',
         'stats': _c10_stats,
@@ -1758,3 +1818,9 @@ PROPS['C03'] = {
                     'correspondence and oracle: text <= 64 KiB, parenthesis depth <= 200, per-case watchdog of the runner (hang = no answer within the batch budget)',
                     'the green check depends on fix-1..fix-8 being applied to the source (see KNOWN_FINDINGS.jsonl / report); on the pinned source it reports the first unrepaired defect'],
 }
+
+
+PROPS['C10']['describe'] = lambda c: _lay_describe(c) if c.startswith('KAN') else c
+PROPS['C10']['shrink_candidates'] = lambda c: _lay_shrink(c) if c.startswith('KAN') else []
+PROPS['C10']['determined'] = lambda case, out: _kan_evseq(case, out) if case.startswith('KAN') else out
+PROPS['C10']['determined_what'] = 'the order of the events sent to the OS (layout-level fork/switch cases), the opcodes and firing cases otherwise'
